@@ -343,20 +343,36 @@ def r16_50(ctx):
                   out.add(("deq", mc2[0], nm.id))
     return out
 
-  def gen_must(unit):
-    return facts_of(unit, flow.unconditional_nodes(unit))
+  # path-sensitive: the state at a point is the SET of event-sets of the paths
+  # that reach it (events since the node variable was last bound)
+  def delta(unit, st):
+    sure = facts_of(unit, flow.unconditional_nodes(unit))
+    maybe = facts_of(unit, list(_scope_nodes(unit)))
+    if sure != maybe:
+      raise AnalysisError(f"{where}: `{src(unit)}` writes the result / seen-set / worklist "
+                          "inside a conditional expression; not understood")
+    stored = _stores(unit)
+    out = set()
+    for ps in st:
+      if stored:
+        ps = frozenset(f for f in ps if f[1] not in stored and f[2] not in stored)
+      again = {("emit2", f[1], f[2]) for f in sure if f[0] == "emit" and f in ps}
+      out.add(ps | sure | again)
+    return frozenset(out)
 
-  def gen_may(unit):
-    return facts_of(unit, list(_scope_nodes(unit)))
+  class _Paths(flow.Flow):
+    def _transfer(self, unit, st):
+      return None if st is None else delta(unit, st)
 
-  def kill(unit):
-    st = _stores(unit)
-    if not st:
-      return None
-    return lambda f: f[0] != "def" and (f[1] in st or f[2] in st)
+  paths = _Paths(fn, None, None, mode="may", entry=frozenset([frozenset()]))
 
-  must = flow.flow(fn, gen_must, kill, mode="must")
-  may = flow.flow(fn, gen_may, kill, mode="may")
+  def may_at(stmt, fact):
+    st = paths.before.get(stmt)
+    return st is not None and any(fact in ps for ps in st)
+
+  def must_at(stmt, fact):
+    st = paths.before.get(stmt)
+    return st is not None and all(fact in ps for ps in st)
 
   # reaching definitions of every name (is x still the same x?)
   def gen_def(unit):
@@ -378,8 +394,7 @@ def r16_50(ctx):
 
   def exit_states(loop):
     pts = [sentinel[id(loop)]] + _own_continues(loop)
-    return [(may.before.get(p), must.before.get(p)) for p in pts
-            if may.before.get(p) is not None and must.before.get(p) is not None]
+    return [ps for p in pts if paths.before.get(p) is not None for ps in paths.before[p]]
 
   def path_guards(stmt, name):
     """Guards on the path to stmt that were evaluated for the same `name`."""
@@ -403,18 +418,17 @@ def r16_50(ctx):
     exits = exit_states(loop)
     if not exits:
       raise AnalysisError(f"{where}: no end of iteration found for the emission loop")
-    twice = may.before.get(stmt) is not None and ("emit", rname, x) in may.before[stmt]
+    twice = may_at(stmt, ("emit", rname, x))
     added = sorted(s for s in set_names
-                   if any(f[0] == "add" and f[1] == s and f[2] == x
-                          for m, _ in exits for f in m))
+                   if any(("add", s, x) in ps for ps in exits))
     guard_sets = sorted(s for s in set_names
                         if any(_implies(t, p, _absent_pred(x, s))
                                for t, p in path_guards(stmt, x)))
     in_step, why = [], {}
     for s in added:
       emit_f, add_f = ("emit", rname, x), ("add", s, x)
-      miss_add = any(emit_f in m and add_f not in mu for m, mu in exits)
-      miss_emit = any(add_f in m and emit_f not in mu for m, mu in exits)
+      miss_add = any(emit_f in ps and add_f not in ps for ps in exits)
+      miss_emit = any(add_f in ps and emit_f not in ps for ps in exits)
       if miss_add:
         why[s] = (f"an iteration can append `{x}` to `{rname}` without `{s}.add({x})`: the "
                   "node is not recorded as emitted and is emitted again when it is reached "
@@ -508,10 +522,9 @@ def r16_50(ctx):
         continue
       late = []
       for k, ist in inserts:
-        mu = must.before.get(ist)
-        if mu is None:
+        if paths.before.get(ist) is None:
           continue
-        marked = ("add", s, x) in mu
+        marked = must_at(ist, ("add", s, x))
         differs = any(_implies(t, p, _differs_pred(k, x)) for t, p in path_guards(ist, k))
         if not marked and not differs:
           late.append((k, ist))
@@ -529,8 +542,7 @@ def r16_50(ctx):
                    if (mc := _method_call(n)) and mc[0] == s and mc[1] == "add"
                    and n.args[0].id == x]
       for a in add_stmts:
-        mu = must.before.get(a)
-        if mu is not None and ("deq", qname, x) not in mu:
+        if paths.before.get(a) is not None and not must_at(a, ("deq", qname, x)):
           raise AnalysisError(f"{where}: cannot see that `{x}` is removed from `{qname}` "
                               f"before `{s}.add({x})`; not understood")
       verdicts[s] = ("ok", "filtered-on-enqueue", None)
@@ -578,7 +590,8 @@ VARIANTS = [
      "new": "    order.append(node)\n    if node.outgoing:\n      seen.add(node)\n"},
     {"name": "dequeue-test-against-another-set", "rule": "R16.50", "file": CFG_UTILS,
      "expect": "fire",
-     "edits": [(CFG_UTILS, "  seen = set()\n", "  seen = set()\n  skipped = set()\n"),
+     "edits": [(CFG_UTILS, "  order = []\n  seen = set()\n",
+                "  order = []\n  seen = set()\n  skipped = set()\n"),
                (CFG_UTILS, _GUARD, "    if node in skipped:\n      continue\n")]},
     {"name": "enqueue-filter-with-mark-after-expansion", "rule": "R16.50", "file": CFG_UTILS,
      "expect": "fire",
